@@ -19,7 +19,9 @@ WORLD = ["C02", "C05", "C06", "C07", "C08", "C09", "C10", "C11", "C12", "C14", "
 
 def main():
     props = sys.argv[1:] or WORLD
-    for f in glob.glob(os.path.join(BDIR, "**", "*.gcda"), recursive=True):
+    if props == ["--report"]:
+        props = []
+    for f in ([] if sys.argv[1:] == ["--report"] else [1]) and glob.glob(os.path.join(BDIR, "**", "*.gcda"), recursive=True):
         os.remove(f)
     env = dict(os.environ, VERIF_WORLD_VARIANT="cov", VERIF_OUT="/tmp/verif-cov-out")
     for p in props:
@@ -29,8 +31,10 @@ def main():
               flush=True)
     shutil.rmtree("/tmp/verif-cov-out", ignore_errors=True)
     objdir = os.path.join(BDIR, "CMakeFiles", "coap-3.dir")
-    out = subprocess.run("cd %s && gcov -f -o src src/*.gcda -o src/oscore src/oscore/*.gcda 2>/dev/null"
-                         % objdir, shell=True, stdout=subprocess.PIPE, text=True).stdout
+    out = ""
+    for sub in ("src", "src/oscore"):
+        out += subprocess.run("cd %s && gcov -f -o %s %s/*.gcda 2>/dev/null" % (objdir, sub, sub),
+                              shell=True, stdout=subprocess.PIPE, text=True).stdout
     # gcov -f prints "Function 'name'\nLines executed:x% of n" and "File 'path'\nLines executed:"
     rows, never = [], {}
     cur = None
